@@ -223,7 +223,7 @@ def split_reply(line):
     return line, "(oracle none)"
 
 
-def corr_pass(chk, mode, lines, label, known_matcher=None, nontrivial=None, model_lines=None, engine="rs", oracle_filter=None):
+def corr_pass(chk, mode, lines, label, known_matcher=None, nontrivial=None, model_lines=None, engine="rs", oracle_filter=None, view=None):
     """Run impl and model on the same request lines; compare replies; consult the impl-side oracle.
     Returns stats dict. Classification (DESIGN.md §6):
       reply differs + oracle fail  -> violation with the request as failing input
@@ -260,7 +260,7 @@ def corr_pass(chk, mode, lines, label, known_matcher=None, nontrivial=None, mode
             orc_rel = orc
         if ofail:
             stats["oracle_fail"] += 1
-        if ir != mr.strip():
+        if (view(ir) != view(mr.strip())) if view else (ir != mr.strip()):
             stats["mismatch"] += 1
             if ofail:
                 found_input = True
@@ -285,6 +285,68 @@ def corr_pass(chk, mode, lines, label, known_matcher=None, nontrivial=None, mode
     if lines:
         chk.coverage["samples"].append({"op": label, "request": lines[0][:600], "impl_reply": split_reply(impl[0])[0][:300] if impl else None})
     return stats
+
+
+def sx_parse(s):
+    """tiny S-expression reader: atoms -> str, strings -> ('s', text), lists -> list"""
+    i = 0; n = len(s)
+    def one():
+        nonlocal i
+        while i < n and s[i].isspace(): i += 1
+        if i >= n: raise ValueError("eof")
+        c = s[i]
+        if c == "(":
+            i += 1; out = []
+            while True:
+                while i < n and s[i].isspace(): i += 1
+                if i < n and s[i] == ")": i += 1; return out
+                out.append(one())
+        if c == '"':
+            j = i + 1; buf = []
+            while s[j] != '"':
+                if s[j] == "\\": buf.append(s[j:j+2]); j += 2
+                else: buf.append(s[j]); j += 1
+            i = j + 1
+            return ("s", "".join(buf))
+        j = i
+        while j < n and not s[j].isspace() and s[j] not in '()"': j += 1
+        tok = s[i:j]; i = j
+        return tok
+    return one()
+
+
+def sx_show(x):
+    if isinstance(x, tuple): return '"' + x[1] + '"'
+    if isinstance(x, list): return "(" + " ".join(sx_show(y) for y in x) + ")"
+    return x
+
+
+def rt_view(prop):
+    """projection of an `rt` reply onto what property `prop` talks about (so that a change that only affects
+    error reporting does not break the C03/C11 correspondence and vice versa)"""
+    def part(res, name):
+        for p in res[1:]:
+            if isinstance(p, list) and p and p[0] == name: return p[1]
+        return None
+    def cls(x):
+        return x[0] if isinstance(x, list) and x else x
+    def view(text):
+        try:
+            r = sx_parse(text)
+        except Exception:
+            return text
+        if not (isinstance(r, list) and r and r[0] == "res"): return text
+        v, si, ss, msg = part(r, "v"), part(r, "sp-in"), part(r, "sp-sorted"), part(r, "msg")
+        if prop == "C11":
+            return sx_show(["res", ["v", v]])
+        if prop == "C03":
+            keep = lambda x: x if cls(x) in ("ok", "throw") else [cls(x)]
+            return sx_show(["res", ["v", v], ["sp-in", keep(si)], ["sp-sorted", keep(ss)], ["msg", [cls(msg)] if cls(msg) != "throw" else msg]])
+        if prop == "C12":
+            keep = lambda x: x if cls(x) in ("errors", "throw") else [cls(x)]
+            return sx_show(["res", ["v", v if cls(v) == "throw" else "_"], ["sp-in", keep(si)], ["sp-sorted", keep(ss)], ["msg", msg]])
+        return text
+    return view
 
 
 def tag_filter(prefixes):
